@@ -2,8 +2,8 @@
 import random
 from .. import core, sysgen, reader
 
-MODULES = ['DsdVerif.Props.C14', 'DsdVerif.Props.C14Numerals']
-GEN_FILES = ['IupacTables', 'Grammars']
+MODULES = ['DsdVerif.Props.C14', 'DsdVerif.Props.C14Numerals', 'DsdVerif.Props.PyReadPil']
+GEN_FILES = ['IupacTables', 'Grammars', 'PyReadPil', 'PyReaderFns']
 THEOREM_NAMES = ['ignore_skips', 'ignored_reaction_survives', 'reaction_missing_member', 'complement_sequence',
                  'complement_sequence_strong', 'non_iupac_rejected', 'failed_read_restores', 'sl_domain_length_mismatch',
                  'dl_domain_lengths', 'read_domains_sigma', 'read_sequences_sigma', 'read_strands_sigma',
@@ -13,6 +13,9 @@ THEOREM_NAMES = ['ignore_skips', 'ignored_reaction_survives', 'reaction_missing_
                  'read_xkernels_sigma', 'read_pil_macrostates_text', 'read_pil_reactions_text', 'e2_readPil', 'e2_from_theorems']
 THEOREMS = ['Dsd.C14.' + t for t in THEOREM_NAMES] + ['Dsd.TextSig.render_parses', 'Dsd.TextSig.render_parses6'] + \
     ['Dsd.C14.' + t for t in ('lenTok_repr', 'digits_repr', 'lengthDecl_ok', 'read_pil_lengths_text')]     # int(str(l)) = l: numerals without hypothesis
+# the top-level loop of read_pil as written in the source (translator/pyreaderfn2.py -> Gen/PyReadPil.lean; the parsers and read_pil_line are parameters)
+THEOREMS += ['Dsd.PyReadPil.' + t for t in ['py_ignored_not_interpreted', 'py_ignore_skips', 'py_iteration_closed_form', 'py_strand_before_complex',
+                                              'py_reaction_split', 'py_raw_to_other', 'py_exception_propagates']]
 ASSUMPTIONS = [
     'consistent systems are generated from an abstract model (domains with lengths or IUPAC sequences, strands / composite domains, '
     'complexes in kernel and strand notation, concentrations, macrostates named after a member, detailed and condensed reactions, '
@@ -59,6 +62,7 @@ MANIFEST = {
             ' Numerals: lenTok_repr (int(str(l)) = l in the form the reader theorems need, from the core lemma Nat.toNat?_repr), digits_repr and read_pil_lengths_text discharge the side condition on length tokens for every decimal numeral, so `length n = l` is read as a domain of length l for every l without a hypothesis about int().',
     'note': 'End-to-end exactness is a theorem for all five kinds of object (kernel strings without composite domains; numbers as literals); the rest is '
             'established by exploration on the real code plus model correspondence; trusted base as in DESIGN.md section 3.',
+    'source_derived': "The top-level loop of read_pil is transcribed from the working tree (translator/pyreaderfn2.py -> Gen/PyReadPil.lean; the two parsers, read_pil_line, ~obj and reverse_wc_complement are parameters, an object is a tagged value, isinstance against a reader slot a test on its class): PyReadPil.py_ignore_skips (a document reads like its statements that are not in `ignore`; an ignored statement is not interpreted at all), py_iteration_closed_form (one iteration files what read_pil_line returned: first passing test wins - Domain, Strand, Complex, Macrostate, Reaction - under the object's name, raw lines to `other`), py_strand_before_complex, py_reaction_split (condensed / detailed), py_exception_propagates; the domain branch and the whole-dictionary closed form are not done; stream read_pil.source-derived with the real read_pil_line recorded.",
     'technique': 'Lean 4 model of the whole reader: end-to-end theorems for systems of all five object kinds, on token trees and on rendered text; clause theorems; correspondence on generated systems; model-based oracle',
 }
 
@@ -171,6 +175,9 @@ def run(res, proof):
                 d['text'] = bytes.fromhex(d['input'].split('\t')[1]).decode('utf-16-be', 'replace')
     except core.DriverBroken as e:
         proof.problem('driver', str(e))
+    # the read_pil loop as translated from the working tree, with the real read_pil_line recorded
+    from .pyreadpil_stream import source_derived_pyreadpil
+    source_derived_pyreadpil(res, proof)
     for (mode, S, txt) in metas[::max(1, len(metas) // 6)]:
         res.sample({'mode': mode, 'text': txt})
     res.rule = ('%d generated consistent systems (2-6 domains with lengths / short / long / IUPAC sequences, starred declarations, 0-3 '
